@@ -1093,6 +1093,8 @@ func (c *Conn) Read(b []byte) (int, error) {
 		if err := c.readRecord(); err != nil {
 			return 0, err
 		}
+		// 不支持重协商：握手完成后收到的握手消息没有消费者，直接丢弃，避免 c.hand 无限增长
+		c.hand.Reset()
 	}
 	n, _ := c.input.Read(b)
 
